@@ -228,11 +228,11 @@ func (g *G) NumCandidates(s *sg.Schema, isInt bool, intLimits bool) []jsonx.Num 
 
 // FormatSamples gives canonical texts per format.
 var FormatSamples = map[string][]string{
-	"date":      {"2024-02-28", "1999-12-01", "2000-01-01"},
-	"time":      {"12:34:56", "00:00:00", "23:59:59"},
-	"date-time": {"2024-02-28T12:34:56Z", "1999-12-01T00:00:00+02:00", "2000-01-01T23:59:59.5Z"},
-	"ipv4":      {"192.168.0.1", "10.0.0.255", "0.0.0.0"},
-	"ipv6":      {"::1", "2001:db8::1", "fe80::1234:5678"},
+	"date":      {"2024-02-28", "1999-12-01", "2000-01-01", "0001-01-01", "0999-12-31", "9999-12-31", "2024-02-29"},
+	"time":      {"12:34:56", "00:00:00", "23:59:59", "01:02:03"},
+	"date-time": {"2024-02-28T12:34:56Z", "1999-12-01T00:00:00+02:00", "2000-01-01T23:59:59.5Z", "0001-01-01T00:00:00Z", "9999-12-31T23:59:59.999999999Z", "2024-02-29T10:11:12.123456789+14:00", "0987-06-05T04:03:02-12:00"},
+	"ipv4":      {"192.168.0.1", "10.0.0.255", "0.0.0.0", "255.255.255.255"},
+	"ipv6":      {"::1", "2001:db8::1", "fe80::1234:5678", "::", "ffff:ffff:ffff:ffff:ffff:ffff:ffff:ffff"},
 }
 
 // valid documents -----------------------------------------------------------------------------
